@@ -345,6 +345,17 @@ class _P(object):
         raise SqlUnparsed("expected value at %r in %r" % (t, self.text))
 
     # WHERE grammar: or_expr := and_expr (OR and_expr)*
+    def _pragma_value(self):
+        """a pragma value: a word, a string, or a (signed) number"""
+        sign = ""
+        v = self.peek()
+        if v.kind in ("op", "punct") and v.text in ("-", "+"):
+            sign = v.text
+            self.i += 1
+            v = self.peek()
+        self.i += 1
+        return sign + v.text
+
     def where(self):
         return self.or_expr()
 
@@ -711,13 +722,9 @@ class _P(object):
             tt = self.peek()
             if tt.kind == "op" and tt.text == "=":
                 self.i += 1
-                v = self.peek()
-                self.i += 1
-                value = v.text
+                value = self._pragma_value()
             elif self.eat_punct("("):
-                v = self.peek()
-                self.i += 1
-                value = v.text
+                value = self._pragma_value()
                 self.expect_punct(")")
             return Stmt("pragma", extra={"name": name.lower(),
                                          "value": (value or None)})
